@@ -38,7 +38,9 @@ SEPS = ['/', '\\', '//']
 LEADS = ['', '/', '\\']
 ROOTS = ['@T/root', '@T/root/', 'root', './root/', 'rootx/../root']
 FILES = {'root/in.txt': b'inside', 'root/sub/s.txt': b'sub-inside', 'rootx/d.txt': b'DECOY-x', 'root2/in.txt': b'DECOY-2',
-         'above.txt': b'DECOY-above', 'root/root/in.txt': b'nested', 'root/..\\above.txt': b'backslash-name'}
+         'above.txt': b'DECOY-above', 'root/root/in.txt': b'nested', 'root/..\\above.txt': b'backslash-name',
+         # siblings of the root whose names differ from it only in letter case (the file system is case-sensitive)
+         'ROOT/in.txt': b'DECOY-upper', 'Root/sub/s.txt': b'DECOY-capital'}
 
 
 def make_tree():
@@ -61,6 +63,10 @@ def shards(tier, seed):
             out.append((ri, si, k, None))
     # two roots in ONE process, one nested in the other: names served through the outer root must not open the inner root up
     out.append(('nested', None, 3, None))
+    # sibling directories that differ from the root only in letter case (all names up to 3 / 4 segments containing one)
+    for ri in (0, 2, 4):
+        out.append((ri, None, 3, 'ROOT'))
+        out.append((ri, None, 3 if tier == 'quick' else 4, 'Root'))
     # seed extension: one more segment spelling joins the universe (all names up to 3 segments containing it)
     extra = ['...', 'root/', '.\\', ' ', '%2e%2e', '..;'][seed % 6]
     out.append((0, None, 3, extra))
